@@ -5,10 +5,10 @@
 cd /verif || exit 2
 ./vcheck build || exit 2
 missed=0
-for d in seeded/*/; do
+for d in /verif/seeded/*/; do
     name=$(basename "$d")
-    prop=$(python3 -c "import json,sys; print(json.load(open('$d/meta.json'))['property'])")
-    res=$(./tools/try_seeded.sh "$d/patch.diff" "$prop" | head -1)
+    prop=$(python3 -c "import json,sys; print(json.load(open('${d}meta.json'))['property'])")
+    all=$(./tools/try_seeded.sh "${d}patch.diff" "$prop"); res=$(printf '%s\n' "$all" | head -1)
     case "$res" in
         *"exit=1 VIOLATION"*) echo "DETECTED $name  ($res)";;
         *) echo "MISSED   $name  ($res)"; missed=$((missed+1));;
